@@ -38,6 +38,8 @@ type GenSpec struct {
 	SpecHandler string // --spec-handler-name ("" => file base name)
 	Cors        bool
 	Meta        map[string]any
+	DirSpecName string   // non-empty: generated through GenerateDir (--dir) with this on-disk spec file name
+	Prior       *GenSpec // an earlier revision generated into the same directory first (its outcome is ignored)
 }
 
 type GenResult struct {
@@ -76,8 +78,35 @@ func runGoag(work string, s GenSpec) (res GenResult) {
 			res.Detail = fmt.Sprint(r) + "\n" + string(debug.Stack())
 		}
 	}()
+	if s.Prior != nil {
+		func() {
+			defer func() { recover() }()
+			pp := filepath.Join(specDir, "prior."+ext)
+			os.WriteFile(pp, s.Prior.Spec, 0o644)
+			pg := goag.Generator{GenClient: s.Prior.Client, GenAPIHandler: !s.Prior.NoAPI, DoNotEdit: s.Prior.DoNotEdit}
+			pkg := s.Name
+			if s.Prior.Name != "" {
+				pkg = s.Prior.Name
+			}
+			pg.GenerateFile(res.Dir, pkg, pp, s.Prior.BasePath, cfg, s.Prior.SpecHandler)
+		}()
+	}
 	g := goag.Generator{GenClient: s.Client, GenAPIHandler: !s.NoAPI, DoNotEdit: s.DoNotEdit}
-	err := g.GenerateFile(res.Dir, s.Name, res.SpecPath, s.BasePath, cfg, s.SpecHandler)
+	var err error
+	if s.DirSpecName != "" {
+		// directory mode: <specDir>/svc/<DirSpecName>, output relative to the service directory
+		svc := filepath.Join(specDir, "svc")
+		os.MkdirAll(svc, 0o755)
+		os.Remove(res.SpecPath)
+		res.SpecPath = filepath.Join(svc, s.DirSpecName)
+		os.WriteFile(res.SpecPath, s.Spec, 0o644)
+		if s.Cors {
+			os.Rename(cfg, filepath.Join(svc, ".goag.yaml"))
+		}
+		err = g.GenerateDir(specDir, filepath.Join("..", "..", "..", "mod", s.Name), s.Name, s.DirSpecName, s.BasePath, ".goag.yaml", s.SpecHandler)
+	} else {
+		err = g.GenerateFile(res.Dir, s.Name, res.SpecPath, s.BasePath, cfg, s.SpecHandler)
+	}
 	if err != nil {
 		res.Outcome = "error"
 		res.Detail = err.Error()
